@@ -157,6 +157,38 @@ def read_q(w, read):
 
 
 SYM_EQ = [None]  # installed by symbolic runs: decides equality of two term arrays that are not identical
+MISMATCH = []  # (terms a, terms b) of symbolic comparisons that failed: used to solve for a distinguishing input
+
+
+def distinguishing_inputs(ctx, timeout=60):
+    """solve, in exact real arithmetic, for values of the symbolic inputs under which a mismatching pair really differs;
+    returns {tensor name: {index tuple: value}} or None"""
+    import re
+
+    import z3
+
+    from symt import api, rerr
+
+    for A, B in MISMATCH[:2]:
+        try:
+            bits_mp = {}
+            r = rerr.Rerr(ctx, ideal=True)
+            neq = [r.tr(x) != r.tr(y) for x, y in zip(A.reshape(-1), B.reshape(-1)) if x is not y]
+            if not neq:
+                continue
+            v, secs, mdl = api.solve(r.cons + [z3.Or(*neq)], timeout)
+        except NotImplementedError:
+            continue
+        if v != "sat":
+            continue
+        out = {}
+        for name, t in ctx.vars.items():
+            mm = re.match(r"(.*?)(?:\[([0-9,]*)\])?$", name)
+            base, idx = mm.group(1), tuple(int(i) for i in mm.group(2).split(",")) if mm.group(2) else ()
+            val = api.real_model_values(r, mdl, [t], t.dt)[0]
+            out.setdefault(base, {})[idx] = val
+        return out
+    return None
 
 
 def same(a, b):
@@ -170,7 +202,10 @@ def same(a, b):
         return False
     if all(x is y for x, y in zip(a.reshape(-1), b.reshape(-1))):
         return True
-    return bool(SYM_EQ[0](a, b)) if SYM_EQ[0] else False
+    ok = bool(SYM_EQ[0](a, b)) if SYM_EQ[0] else False
+    if not ok:
+        MISMATCH.append((a, b))
+    return ok
 
 
 def run_case(case, res):
@@ -190,12 +225,28 @@ def run_case(case, res):
             X = m.symbolic(x, "x")
             bits_ = wq.qt(case["qtype"]).bits
             SYM_EQ[0] = (lambda a, b: api.equal_modulo_bits(m.ctx, a, b, bits_, res)) if bits_ < 8 else None
+            del MISMATCH[:]
             probs = run_history(model, x, hist, lambda t: m.read(t) if type(t) in (torch.Tensor, torch.nn.Parameter) else m.read(t.dequantize()))
         nv = x.numel() + sum(v.size for v in P.values())
         res.query("lifecycle-preserves-outputs-and-state", "ALG", "unsat" if not probs else "sat", 0.0, sub=f"{hist}", nvars=nv)
         if probs:
-            params = {n: api.enc_tensor(p.data if type(p.data) is torch.Tensor else p.data.dequantize()) for n, p in models.make(case["kind"], dt)[0].named_parameters()}
-            res.candidate("lifecycle", "ALG", dict(kind=case["kind"], dtype=case["dtype"], qtype=case["qtype"], act=case["act"], history=hist, x=api.enc_tensor(x), note=[f"step {i} {s}: {p}" for i, s, p in probs][:4]), exact=False)
+            base = dict(kind=case["kind"], dtype=case["dtype"], qtype=case["qtype"], act=case["act"], history=hist, x=api.enc_tensor(x), note=[f"step {i} {s}: {p}" for i, s, p in probs][:4])
+            res.candidate("lifecycle", "ALG", base, exact=False)
+            if MISMATCH and wq.qt(case["qtype"]).bits == 8:
+                # terms differ: besides the seed, solve for an input under which they really differ (value-specific defects)
+                sol = distinguishing_inputs(m.ctx)
+                if sol:
+                    fm, _ = models.make(case["kind"], dt)
+                    pv = {}
+                    for n, p in fm.named_parameters():
+                        t = p.detach().clone()
+                        for idx, val in sol.get(f"p.{n}", {}).items():
+                            t[idx] = val
+                        pv[n] = api.enc_tensor(t)
+                    xv = x.clone()
+                    for idx, val in sol.get("x", {}).items():
+                        xv[idx] = val
+                    res.candidate("lifecycle", "RERR-ideal", dict(base, x=api.enc_tensor(xv), params=pv), exact=False)
 
 
 def replay(rec):
@@ -207,6 +258,11 @@ def replay(rec):
     dt = api.DT[inp["dtype"]]
     model, x = models.make(inp["kind"], dt)
     x = api.dec_tensor(inp["x"])
+    if inp.get("params"):
+        with torch.no_grad():
+            for n, p in model.named_parameters():
+                if n in inp["params"]:
+                    p.copy_(api.dec_tensor(inp["params"][n]))
     quantize(model, weights=wq.qt(inp["qtype"]), activations=wq.qt(inp["act"]) if inp["act"] else None)
     if inp["act"]:
         models.set_scales(model)
